@@ -552,6 +552,205 @@ def specialise_template_methods(tree):
                 out.append('%s.%s' % (S.name, m.name))
     return out
 
+def desugar_match(tree):
+    """``match`` statements whose patterns are class patterns without sub-patterns, literals, ``|`` alternatives of these,
+    captures and ``_`` become the if/elif chains they abbreviate (a class pattern ``C()`` is ``isinstance(subject, C)``;
+    cases are tried in order; no case, no effect).  Other patterns are left alone.  -> number of statements rewritten"""
+    counter = [0]
+
+    def test_of(pat, subj):
+        """-> (test expression | None for always, bindings [(name)]) or False when unsupported"""
+        if isinstance(pat, ast.MatchClass):
+            if pat.patterns or pat.kwd_patterns:
+                return False
+            return ast.Call(func=ast.Name(id='isinstance', ctx=ast.Load()), args=[_clone(subj), _clone(pat.cls)], keywords=[]), []
+        if isinstance(pat, ast.MatchValue):
+            return ast.Compare(left=_clone(subj), ops=[ast.Eq()], comparators=[_clone(pat.value)]), []
+        if isinstance(pat, ast.MatchSingleton):
+            return ast.Compare(left=_clone(subj), ops=[ast.Is()], comparators=[ast.Constant(value=pat.value)]), []
+        if isinstance(pat, ast.MatchAs):
+            if pat.pattern is None:
+                return None, ([pat.name] if pat.name else [])
+            r = test_of(pat.pattern, subj)
+            if r is False:
+                return False
+            return r[0], r[1] + ([pat.name] if pat.name else [])
+        if isinstance(pat, ast.MatchOr):
+            tests = []
+            for p in pat.patterns:
+                r = test_of(p, subj)
+                if r is False or r[1]:
+                    return False
+                if r[0] is None:
+                    return None, []
+                tests.append(r[0])
+            return ast.BoolOp(op=ast.Or(), values=tests), []
+        return False
+
+    class T(ast.NodeTransformer):
+        def visit_Match(self, node):
+            self.generic_visit(node)
+            pre = []
+            subj = node.subject
+            if not _simple_expr(subj):
+                counter[0] += 1
+                name = '_match%d_subject' % counter[0]
+                pre = [ast.Assign(targets=[ast.Name(id=name, ctx=ast.Store())], value=subj)]
+                subj = ast.Name(id=name, ctx=ast.Load())
+            arms = []
+            for c in node.cases:
+                r = test_of(c.pattern, subj)
+                if r is False:
+                    return node
+                test, binds = r
+                if c.guard is not None:
+                    if binds:
+                        return node
+                    test = c.guard if test is None else ast.BoolOp(op=ast.And(), values=[test, c.guard])
+                body = [ast.Assign(targets=[ast.Name(id=b, ctx=ast.Store())], value=_clone(subj)) for b in binds] + c.body
+                arms.append((test, body))
+                if test is None:
+                    break
+            chain = []
+            for test, body in reversed(arms):
+                if test is None:
+                    chain = body
+                else:
+                    chain = [ast.If(test=test, body=body, orelse=chain)]
+            out = pre + (chain or [ast.Pass()])
+            for st in out:
+                ast.copy_location(st, node)
+                ast.fix_missing_locations(st)
+            counter[0] += 1
+            return out
+    if not any(isinstance(n, ast.Match) for n in ast.walk(tree)):
+        return 0
+    T().visit(tree)
+    return counter[0]
+
+def dissolve_field_helper_classes(tree, foreign_text=''):
+    """A module-level class K without constructor and special methods that derives from dict / list / set (or nothing),
+    whose instances are created only as ``self.F = K()`` in the methods of one class Y, always for the same field F, and
+    used only as ``self.F.m(..)`` / through the operations of the base type: the methods of K become methods
+    ``_K__m`` of Y working on ``self.F``, and the field holds a plain container.  The same code runs on the same data;
+    the analyses then see the store and its helpers in one class.  -> names of the dissolved classes"""
+    done = []
+    for K in [c for c in tree.body if isinstance(c, ast.ClassDef)]:
+        bases = [b.id if isinstance(b, ast.Name) else None for b in K.bases]
+        if K.decorator_list or K.keywords or any(b not in ('object', 'dict', 'list', 'set') for b in bases):
+            continue
+        base = next((b for b in bases if b != 'object'), None)
+        if base is None:
+            continue
+        if re.search(r'\b%s\b' % re.escape(K.name), foreign_text):
+            continue
+        body = [st for st in K.body if not (isinstance(st, ast.Pass) or (isinstance(st, ast.Expr) and isinstance(st.value, ast.Constant)))]
+        if not body or not all(isinstance(st, ast.FunctionDef) for st in body):
+            continue
+        meths = {m.name: m for m in body}
+        if any(n.startswith('__') for n in meths) or any(m.decorator_list or not m.args.args or m.args.vararg or m.args.kwarg for m in meths.values()):
+            continue
+        set_parents(tree)
+        mentions = [n for n in ast.walk(tree) if (isinstance(n, ast.Name) and n.id == K.name) or
+                    (isinstance(n, ast.Attribute) and n.attr == K.name) or (isinstance(n, ast.Constant) and n.value == K.name)]
+        sites = []
+        ok = True
+        for n in mentions:
+            call = getattr(n, '_parent', None)
+            asg = getattr(call, '_parent', None)
+            if not (isinstance(n, ast.Name) and isinstance(call, ast.Call) and call.func is n and not call.args and not call.keywords and
+                    isinstance(asg, ast.Assign) and asg.value is call and len(asg.targets) == 1 and isinstance(asg.targets[0], ast.Attribute)
+                    and isinstance(asg.targets[0].value, ast.Name)):
+                ok = False
+                break
+            fn = asg
+            while fn is not None and not isinstance(fn, ast.FunctionDef):
+                fn = getattr(fn, '_parent', None)
+            cls = getattr(fn, '_parent', None) if fn is not None else None
+            if not isinstance(cls, ast.ClassDef) or cls is K or not fn.args.args or fn.args.args[0].arg != asg.targets[0].value.id:
+                ok = False
+                break
+            sites.append((cls, asg.targets[0].attr, call))
+        if not ok or not sites or len({id(c) for c, _, _ in sites}) != 1 or len({f for _, f, _ in sites}) != 1:
+            continue
+        Y, F = sites[0][0], sites[0][1]
+        new_names = {m: '_%s__%s' % (K.name.lstrip('_'), m) for m in meths}
+        ydefs = {st.name for st in Y.body if isinstance(st, (ast.FunctionDef, ast.ClassDef))}
+        if set(new_names.values()) & ydefs:
+            continue
+        # every mention of the field: the receiver of a call / subscript / attribute, an operand of ``in``, the iterable of a
+        # loop, or the target of one of the constructions above - never passed on as a value
+        for n in ast.walk(tree):
+            if isinstance(n, ast.Attribute) and n.attr == F:
+                par = getattr(n, '_parent', None)
+                if isinstance(n.ctx, ast.Store):
+                    if not any(par is c._parent for _, _, c in sites):
+                        ok = False
+                elif isinstance(par, ast.Attribute) and par.value is n:
+                    pass
+                elif isinstance(par, ast.Subscript) and par.value is n:
+                    pass
+                elif isinstance(par, (ast.For, ast.comprehension)) and par.iter is n:
+                    pass
+                elif isinstance(par, ast.Compare) and n in par.comparators and all(isinstance(o, (ast.In, ast.NotIn)) for o in par.ops):
+                    pass
+                elif isinstance(par, ast.Call) and isinstance(par.func, ast.Name) and par.func.id in ('len', 'bool', 'list', 'sorted', 'iter') and n in par.args:
+                    pass
+                else:
+                    ok = False
+                # the field of another object than the method's own
+                fn = n
+                while fn is not None and not isinstance(fn, ast.FunctionDef):
+                    fn = getattr(fn, '_parent', None)
+                if fn is None or not isinstance(getattr(fn, '_parent', None), ast.ClassDef) or fn._parent is not Y or \
+                        not fn.args.args or not (isinstance(n.value, ast.Name) and n.value.id == fn.args.args[0].arg):
+                    ok = False
+            if isinstance(n, ast.Constant) and n.value == F:
+                ok = False
+        for m in meths.values():
+            me = m.args.args[0].arg
+            for x in ast.walk(m):
+                if isinstance(x, ast.Name) and x.id in ('super', '__class__'):
+                    ok = False
+                if isinstance(x, ast.Name) and x.id == me and isinstance(x.ctx, (ast.Store, ast.Del)):
+                    ok = False
+                if isinstance(x, ast.Attribute) and isinstance(x.value, ast.Name) and x.value.id == me and isinstance(x.ctx, (ast.Store, ast.Del)):
+                    ok = False
+                if isinstance(x, (ast.FunctionDef, ast.Lambda)) and x is not m and any(a.arg == me for a in x.args.args):
+                    ok = False
+        if not ok:
+            continue
+        # 1. calls self.F.m(..) in Y -> self._K__m(..)
+        for n in ast.walk(Y):
+            if isinstance(n, ast.Call) and isinstance(n.func, ast.Attribute) and n.func.attr in meths and \
+                    isinstance(n.func.value, ast.Attribute) and n.func.value.attr == F:
+                n.func = ast.copy_location(ast.Attribute(value=n.func.value.value, attr=new_names[n.func.attr], ctx=ast.Load()), n.func)
+        # 2. the methods move: their own ``self`` becomes ``self.F``, calls among them stay among them
+        for m in meths.values():
+            me = m.args.args[0].arg
+
+            class Sub(ast.NodeTransformer):
+                def visit_Attribute(self, node):
+                    if isinstance(node.value, ast.Name) and node.value.id == me and node.attr in meths:
+                        return ast.copy_location(ast.Attribute(value=node.value, attr=new_names[node.attr], ctx=node.ctx), node)
+                    self.generic_visit(node)
+                    return node
+
+                def visit_Name(self, node):
+                    if node.id == me and isinstance(node.ctx, ast.Load):
+                        return ast.copy_location(ast.Attribute(value=ast.Name(id=me, ctx=ast.Load()), attr=F, ctx=ast.Load()), node)
+                    return node
+            m.body = [Sub().visit(st) for st in m.body]
+            m.name = new_names[m.name]
+            ast.fix_missing_locations(m)
+            Y.body.append(m)
+        # 3. the field holds the plain container
+        for _, _, call in sites:
+            call.func = ast.copy_location(ast.Name(id=base, ctx=ast.Load()), call.func)
+        tree.body = [st for st in tree.body if st is not K]
+        done.append(K.name)
+    return done
+
 
 class FuncInfo:
     def __init__(self, module, node, cls=None, parent=None):
@@ -675,12 +874,11 @@ class Module:
         self.relpath = os.path.relpath(path, repo.root)
         with open(path, encoding='utf-8') as f:
             self.src = f.read()
-        try:
-            self.tree = ast.parse(self.src, filename=path)
-        except SyntaxError as e:
-            raise AnalysisError('cannot parse %s: %s' % (self.relpath, e))
+        self.tree = repo.parsed(name)
+        self.desugared = desugar_match(self.tree)
         self.flattened = flatten_single_use_bases(self.tree, repo.foreign_text(name))
         self.specialised = specialise_template_methods(self.tree)
+        self.dissolved = dissolve_field_helper_classes(self.tree, repo.foreign_text(name))
         set_parents(self.tree)
         self.expanded = expand_context_manager_classes(self.tree) + expand_generator_context_managers(self.tree)
         self.classes = {}
@@ -777,6 +975,8 @@ class Repo:
                 with open(os.path.join(self.srcdir, fn), encoding='utf-8') as fh:
                     self._texts[fn[:-3]] = fh.read()
         names = list(SRC_MODULES) + (list(GENERATED_MODULES) if with_generated else [])
+        self._trees = {}
+        self.merged = self._merge_private_modules()
         for name in names:
             p = os.path.join(self.srcdir, name + '.py')
             if not os.path.isfile(p):
@@ -785,9 +985,79 @@ class Repo:
         # extra non-generated modules that a change may have added
         for fn in sorted(os.listdir(self.srcdir)):
             if fn.endswith('.py') and fn[:-3] not in self.modules and fn[:-3] not in GENERATED_MODULES \
-                    and fn != '__init__.py':
+                    and fn != '__init__.py' and fn[:-3] not in self.merged:
                 self.modules[fn[:-3]] = Module(self, fn[:-3], os.path.join(self.srcdir, fn))
         self._mro_cache = {}
+
+    def parsed(self, name):
+        if name not in self._trees:
+            p = os.path.join(self.srcdir, name + '.py')
+            try:
+                with open(p, encoding='utf-8') as fh:
+                    self._trees[name] = ast.parse(fh.read(), filename=p)
+            except SyntaxError as e:
+                raise AnalysisError('cannot parse %s: %s' % (os.path.relpath(p, self.root), e))
+        return self._trees[name]
+
+    def _merge_private_modules(self):
+        """A hand-written module that is not one of the known ones and is imported by exactly one other module, through
+        top-level ``from .x import names`` statements only, is read as part of that module: its statements take the place
+        of the first import (no top-level name may be bound in both).  The classes and functions are then seen where the
+        rest of the analysis looks for them.  -> {merged module: host}"""
+        merged = {}
+        extras = [n for n in self._texts if n not in SRC_MODULES and n != '__init__']
+        for x in extras:
+            pat = re.compile(r'^\s*(from\s+(\.|%s\.)%s\s+import|import\s+%s\.%s\b|from\s+(\.|%s)\s+import\s+.*\b%s\b)' % (PKG, re.escape(x), PKG, re.escape(x), PKG, re.escape(x)), re.M)
+            hosts = [n for n, t in self._texts.items() if n != x and pat.search(t)]
+            if len(hosts) != 1 or hosts[0] in merged:
+                continue
+            host = hosts[0]
+            ht, xt = self.parsed(host), self.parsed(x)
+            imps = [st for st in ast.walk(ht) if isinstance(st, ast.ImportFrom) and st.level == 1 and st.module == x]
+            if not imps or any(st not in ht.body for st in imps):
+                continue
+            if any(isinstance(st, (ast.Import, ast.ImportFrom)) and x in ast.unparse(st).split() for st in ast.walk(ht) if st not in imps):
+                continue
+
+            def bound(tree):
+                out = {}
+                for st in tree.body:
+                    if isinstance(st, (ast.FunctionDef, ast.ClassDef)):
+                        out[st.name] = 'def'
+                    elif isinstance(st, (ast.Assign, ast.AnnAssign, ast.AugAssign)):
+                        for t in (st.targets if isinstance(st, ast.Assign) else [st.target]):
+                            for n in ast.walk(t):
+                                if isinstance(n, ast.Name):
+                                    out[n.id] = 'var'
+                    elif isinstance(st, (ast.Import, ast.ImportFrom)):
+                        for a in st.names:
+                            out[(a.asname or a.name).split('.')[0]] = 'import:' + ast.unparse(st).split(' import ')[0] + ':' + a.name
+                return out
+            bx, bh = bound(xt), bound(ht)
+            imported = {a.name for st in imps for a in st.names}
+            clash = [n for n in bx if n in bh and bx[n] != bh[n] and not (n in imported and bh[n].startswith('import:from .%s' % x))]
+            if clash or any(a.name == '*' and len(imps) > 1 for st in imps for a in st.names):
+                continue
+            if any(isinstance(st, ast.Assign) and any(isinstance(t, ast.Name) and t.id == '__all__' for t in st.targets) for st in xt.body):
+                continue
+            # the statements of x (docstring and __future__ imports dropped, imports already present in the host kept once)
+            body = [st for st in xt.body if not (isinstance(st, ast.Expr) and isinstance(st.value, ast.Constant)) and
+                    not (isinstance(st, ast.ImportFrom) and st.module == '__future__')]
+            alias = []
+            for st in imps:
+                for a in st.names:
+                    if a.asname and a.asname != a.name:
+                        alias.append(ast.copy_location(ast.Assign(targets=[ast.Name(id=a.asname, ctx=ast.Store())],
+                                                                  value=ast.Name(id=a.name, ctx=ast.Load())), st))
+            for st in alias:
+                ast.fix_missing_locations(st)
+            i = ht.body.index(imps[0])
+            ht.body = ht.body[:i] + body + alias + [st for st in ht.body[i:] if st not in imps]
+            merged[x] = host
+            self._texts[host] = self._texts[host] + '\n' + self._texts[x]
+        for x in merged:
+            self._texts.pop(x, None)
+        return merged
 
     def foreign_text(self, name):
         """the source text of every other hand-written module (used to see whether a name is mentioned elsewhere)"""
@@ -863,7 +1133,13 @@ class Repo:
         if name in mod.functions:
             return ('func', mod.functions[name])
         if name in mod.assigns:
-            return ('var', mod, mod.assigns[name])
+            v = mod.assigns[name]
+            if isinstance(v, ast.Name) and len(mod.assign_nodes.get(name, ())) == 1 and v.id != name:
+                # a module-level alias of a class or function
+                r = self.module_binding(mod, v.id, _seen)
+                if r and r[0] in ('class', 'func'):
+                    return r
+            return ('var', mod, v)
         if name in mod.imports:
             spec = mod.imports[name]
             if ':' in spec:
